@@ -342,7 +342,44 @@ def run(prog, chk):
 
     # ---- R05.6 ---------------------------------------------------------------------------------
     _cli_rule(prog, chk, R)
+    _one_simulator_per_run(prog, chk, R, mutators)
     _named_gates(prog, chk, R)
+
+
+
+def _one_simulator_per_run(prog, chk, R, mutators):
+    """R05.3 — the log that is read holds every operation of the run: the evaluator's simulator object is replaced whole only where no
+    operation of the run can have been logged yet (before the first call that can reach a simulator operation, in a function the
+    program's own code cannot re-enter)."""
+    simf = R.ev_sim_field
+    touch = {id(m): m for m in mutators}
+    work = list(mutators)
+    while work:
+        t = work.pop()
+        for c_, _n in prog.callers(t):
+            if id(c_) not in touch:
+                touch[id(c_)] = c_
+                work.append(c_)
+    ex, ev = R.ev_method('exec'), R.ev_method('eval')
+    inner = {id(x) for x in prog.reach([ex, ev])}
+    n = 0
+    for f in prog.functions:
+        if not f.body or not f.name.startswith(R.ev['name'] + '::'):
+            continue
+        if not any(SX.is_this_member(m_, simf) for m_ in SX.walk(f.body, into_lambdas=False) if m_.get('k') == 'member'):
+            continue
+        g = prog.cfg(f)
+        for w, l, r, op in g.writes():
+            if not SX.is_this_member(SX.strip(l), simf):
+                continue
+            n += 1
+            before = g.reachable([w], forward=False)
+            early = [c for c in g.nodes if c.id in before and c.kind == 'call' and SX.is_node(c.e) and c.e.get('k') in ('call', 'mcall')
+                     and any(id(t) in touch for t in prog.resolve(c.e))]
+            chk.ob('R05.3', f, w.ln, id(f) not in inner and not early,
+                   'the simulator is replaced whole only before anything of the run can have been logged: %s is not re-entered by program code, and no call before the replacement reaches a '
+                   'simulator operation%s' % (f.short, (' (line %s does)' % early[0].ln) if early else ''), key='fresh-simulator:' + f.short)
+    chk.count('whole-simulator replacements', n, 1)
 
 
 def _is_entry_check(g, edge):
